@@ -172,7 +172,7 @@ func segmentF(mask int, vs int) *MediaSegment {
 		s.Bitrate = intp(valInts[vs%3])
 	}
 	if bit(4) {
-		s.Title = "title " + strconv.Itoa(vs)
+		s.Title = []string{"title ", "a, b,c ", "t=\"x\" #", "täitl "}[vs%4] + strconv.Itoa(vs) // free text up to the end of the line: commas, quotes, hashes, non-ASCII
 	}
 	if bit(5) {
 		r := valRanges[1+vs%3]
@@ -1105,6 +1105,7 @@ var c15Menu = []string{
 	"#EXT-X-PART:DURATION=1,URI=\"p.mp4\"", "#EXT-X-PART:DURATION=0,URI=\"p.mp4\"", "#EXT-X-PART:URI=\"\"", "#EXT-X-PART-INF:PART-TARGET=0",
 	"#EXT-X-MAP:URI=\"\"", "#EXT-X-PRELOAD-HINT:TYPE=PART,URI=\"\"", "#EXT-X-STREAM-INF:BANDWIDTH=1,CODECS=\"a\"", "#EXT-X-STREAM-INF:BANDWIDTH=1",
 	"#EXT-X-MEDIA:TYPE=AUDIO,GROUP-ID=\"\"", "#EXT-X-MEDIA:TYPE=X,GROUP-ID=\"g\"", "#EXT-X-MEDIA:GROUP-ID=\"g\",NAME=\"n\"", "#EXT-X-KEY:METHOD=AES-128", "#EXT-X-BYTERANGE:1@", "#EXT-X-ENDLIST", "\t ",
+	"#EXT-X-PRELOAD-HINT:TYPE=MAP,URI=\"i.mp4\"", "#EXT-X-PRELOAD-HINT:TYPE=PART,URI=\"p.mp4\"",
 }
 
 func c15Run(c *vh.Ctx) {
